@@ -787,6 +787,10 @@ def builtin_attr(I, obj, name):
                 def nat(*a, **k):
                     if all(M._native(x) for x in a):
                         return I.native_call(real, a, k)
+                    pred = I.ghost.get('regex_pred')
+                    if pred is not None and name == 'match' and isinstance(obj, re.Pattern):
+                        # the pattern's language is the regex engine's business: an uninterpreted predicate of the string
+                        return Opaque('match') if I.truth(pred(obj, a[0])) else None
                     raise M.Unsupported('regex %s on a symbolic string' % name)
                 return meth(nat)
             return real
